@@ -375,6 +375,78 @@ def rule_resolution(ck, F):
     if header_fns:
         okh = all(reaches_fetcher(f_) for f_ in header_fns)
         (ck.ok if okh else ck.violation)("R6", "header-part", F.lib.body(header_fns[0])["span"], "header part = header@part, fetched by key" if okh else "header parts are not taken from header@part")
+    # every `header` child of the binding's input / output becomes one header of the envelope: the list is the children filtered by
+    # that tag only (a further filter drops bound headers)
+    def chain_view(nf):
+        conds = []
+        cur = nf
+        for _ in range(12):
+            if not isinstance(cur, tuple):
+                break
+            if cur[0] == "payload":
+                cur = cur[2]
+            elif cur[0] == "call" and cur[2] and str(cur[1]).rsplit("::", 1)[-1] in ("into_iter", "iter", "collect", "cloned", "to_vec", "into_boxed_slice"):
+                cur = cur[2][0]
+            elif cur[0] == "list" and len(cur[1]) == 1 and cur[1][0][0] == "star":
+                # built with a loop: `for h in children.filter(..) { headers.push(read(h)?) }`
+                it_ = cur[1][0]
+                if len(it_) > 4 and it_[3] == "conditional":
+                    conds += list(it_[4])
+                cur = it_[1]
+            elif cur[0] == "call" and str(cur[1]).startswith("iter::"):
+                src, val, cs = og.iter_view(cur)
+                if src == cur:
+                    break
+                conds += [c for c, _b in cs]
+                cur = src
+            else:
+                break
+        return cur, conds
+    n_env = 0
+    CE_ = og.CallExpander(F)
+    for (fn_, site_, ctx_, fields_, base_) in og.field_summaries(F, "binding::SoapEnvelope"):
+        if "headers" not in fields_ or "tests" in fn_:
+            continue
+        n_env += 1
+        src_, conds_ = chain_view(CE_.expand(fields_["headers"]))
+        if isinstance(src_, tuple) and src_[0] == "call" and A._local_fn(F, src_[1]):
+            src_, more_ = chain_view(CE_.expand(src_))    # a local helper returning the (filtered) children
+            conds_ += more_
+        conds_ = [CE_.expand(c) for c in conds_]
+        over_children = isinstance(src_, tuple) and src_[0] == "call" and str(src_[1]).rsplit("::", 1)[-1] == "children"
+        atoms = []
+        for c in conds_:
+            st_ = [c]
+            while st_:
+                a_ = st_.pop()
+                if isinstance(a_, tuple) and a_[0] == "binop" and a_[1] == "And":
+                    st_ += [a_[2], a_[3]]
+                else:
+                    atoms.append(a_)
+
+        def kind_of(a_):
+            """'element' for is_element(<child>), 'header' for tag_name(<child>).name() == "header", None for anything else"""
+            if isinstance(a_, tuple) and a_[0] == "call" and str(a_[1]).rsplit("::", 1)[-1] == "is_element" and len(a_[2]) == 1 and a_[2][0][0] == "elem":
+                return "element"
+            if isinstance(a_, tuple) and a_[0] == "binop" and a_[1] == "Eq":
+                for x_, y_ in ((a_[2], a_[3]), (a_[3], a_[2])):
+                    if x_ == ("lit", "header") and isinstance(y_, tuple) and y_[0] == "call" and str(y_[1]).rsplit("::", 1)[-1] == "name" \
+                            and y_[2] and isinstance(y_[2][0], tuple) and y_[2][0][0] == "call" and str(y_[2][0][1]).rsplit("::", 1)[-1] == "tag_name" \
+                            and y_[2][0][2] and y_[2][0][2][0][0] == "elem":
+                        return "header"
+            return None
+        extra = [a_ for a_ in atoms if kind_of(a_) is None]
+        tagged = any(kind_of(a_) == "header" for a_ in atoms)
+        if over_children and tagged and not extra:
+            ck.ok("R6", "headers:every-header-child", site_, "envelope headers = one entry per `header` child of the binding's input / output")
+        elif not over_children:
+            ck.undecided("R6", "headers:every-header-child", site_, f"the header list is not read off an iteration over the child elements: {og.nf_str(fields_['headers'])[:120]}")
+        else:
+            ck.violation("R6", "headers:every-header-child", site_,
+                         "the header list of an envelope is not every `header` child of the binding's input / output: " +
+                         (f"it is filtered further by {og.nf_str(extra[0])[:120]}" if extra else "it is not selected by the tag `header`") +
+                         " — a bound header can be dropped and is then missing from the envelope")
+    ck.floor("R6", "SoapEnvelope construction sites", n_env, 1)
     # port side: input/output@message resolved through the by-(name, namespace) lookup of WSDL messages
     proots = [b_["path"] for b_ in F.lib.bodies if b_["path"].startswith("<model::soap::port::") and b_["path"].endswith("TryFromNode<'n>>::try_from_node")]
     pfns = [f_ for f_ in list(proots) + sorted(scans.reachable(g, proots)) if A._local_fn(F, f_) and "soap::port" in f_]
